@@ -241,12 +241,21 @@ def check_c12(ck, tier, replay=None):
             lam = z3.Real('lam'); y2 = [z3.Real('z%d' % i) for i in range(n)]
             pa, _ = spline_eval(mod, 'cubic', g, y2, F(g[0]), parsed, (), 0, QRContract()); pb, _ = spline_eval(mod, 'cubic', g, [ys[k] + lam * y2[k] for k in range(n)], F(g[0]), parsed, (), 0, QRContract())
             agg_prove(ck, '%s: f\'\' depends linearly on the ordinates' % label, [(c1 + c2 + c3, [z3.Or([v3[3][k] != v1[3][k] + lam * v2[3][k] for k in range(n)])]) for (c1, v1), (c2, v2), (c3, v3) in itertools.product(p, pa, pb)], TO, found, 'cubic')
-    # cubic periodic: the boundary rows
-    n = 4; g = GRIDS[4][0]; ys = [z3.Real('y%d' % i) for i in range(n)]
-    qr = QRContract(); p, _ = spline_eval(mod, 'cubic', g, ys, F(g[0]), parsed, [ys[0] == ys[n - 1]], 1, qr)
-    sing = [e for e in qr.events if e.get('singular')]
-    ck.obligation('CubicSpline periodic (n=4, uniform grid): the system for f\'\' is non-singular, so the two ends join with equal slope and curvature', 'sat' if sing else 'unsat', 0.0, True, {'matrix': sing[0]['matrix']} if sing else None)
-    if sing: found.append(('cubic-periodic', 'periodic boundary rows make the system singular', sing[0]))
+    # cubic periodic: non-singular system, equal slope and curvature at the two ends, interpolation
+    for n, g in ((4, GRIDS[4][0]), (4, GRIDS[4][1]), (5, GRIDS[5][1])) if tier == 'quick' else ((3, GRIDS[3][1]), (4, GRIDS[4][0]), (4, GRIDS[4][1]), (5, GRIDS[5][0]), (5, GRIDS[5][1]), (6, GRIDS[6][0])):
+        ys = [z3.Real('y%d' % i) for i in range(n)]; per = [ys[0] == ys[n - 1]]
+        label = 'CubicSpline periodic (n=%d, grid %s)' % (n, [str(v) for v in g])
+        qr = QRContract(); p0, _ = spline_eval(mod, 'cubic', g, ys, F(g[0]), parsed, per, 1, qr)
+        qr2 = QRContract(); p1, _ = spline_eval(mod, 'cubic', g, ys, F(g[n - 1]), parsed, per, 1, qr2)
+        sing = [e for e in qr.events + qr2.events if e.get('singular')]
+        ck.obligation('%s: the system for f\'\' assembled by Interpolate is non-singular' % label, 'sat' if sing else 'unsat', 0.0, True, {'matrix': sing[0]['matrix']} if sing else None)
+        if sing: found.append(('cubic-periodic', '%s: periodic boundary rows make the system singular' % label, sing[0])); continue
+        q = []
+        for (c0, v0), (c1, v1) in itertools.product(p0, p1):
+            q.append((c0 + c1 + per, [z3.Or(v0[1] != ys[0], v1[1] != ys[n - 1], v0[2] != v1[2], v0[3][0] != v0[3][n - 1])]))
+        st_ = agg_prove(ck, '%s: with y_0 = y_{n-1} the two ends join with equal value, slope and curvature' % label, q, TO, found, 'cubic-periodic-join')
+        # interior conditions still hold
+        generic_spline_clauses(ck, mod, 'cubic', g, ys, parsed, TO, found, label, assume=per, periodic=1, qr_factory=QRContract)
     # arbitrary cubic state: value continuity and derivative consistency (inductive form: any f, f'')
     for n in (3,):
         xs = GRIDS[3][1]; f = [z3.Real('f%d' % i) for i in range(n)]; f2 = [z3.Real('g%d' % i) for i in range(n)]; r = z3.Real('r')
